@@ -101,8 +101,6 @@ def check_session(s: MemSession, model: Model, res: Result, label: str, case_ops
     for (idx, ln, what, op, trig), ans in zip(extra, answers[len(lines):]):
         if ans == "true":
             continue
-        if first_bad is not None and idx > first_bad:
-            continue  # after a divergence the predicates are about a different history
         res.bad("impl", f"Pred.C01.{what} on implementation snapshot",
                 case={"label": label, "ops": ops_json[: idx + 1]}, observed=ln[:2000], expected="true",
                 finding=trig if ans == "false" else None)
